@@ -1,6 +1,7 @@
 CONSTANTS
-  FULL = TRUE
+  SPACE = "full"
 INIT Init
 NEXT Next
 INVARIANT Emit
+INVARIANT Law
 CHECK_DEADLOCK FALSE
